@@ -242,6 +242,16 @@ def bbd_partition(ck, prog):
         guarded = cut[0] == "phi" and mid is not None and any((c.lhs == mid or c.rhs == mid or
                                                                any(x == mid for x in subterms(c.lhs)) or any(x == mid for x in subterms(c.rhs)))
                                                               and not is_elem(c.lhs) and not is_elem(c.rhs) for c in cx.cmps)
+        if not guarded and cut[0] == "call":
+            # helper form: `fn split_cutoff(center, lower, upper) -> T { if center <= lower { upper } else { center } }`
+            cal = prog.bodies.get(cut[1])
+            if cal is not None:
+                from sa.prov import Resolver as _R
+                cr = _R(cal)
+                ra = [a for a in alts(cr.local(0)) if a[0] == "arg"]
+                ccmp = [c for c in BodyCtx.of(cal).cmps if c.lhs[0] == "arg" and c.rhs[0] == "arg"]
+                if len({a[1] for a in ra}) >= 2 and ccmp:
+                    guarded = True
         if guarded:
             ck.ok(rule, inst, b.path, site, f"cut-off `{render(cut)[:80]}` is selected under a comparison of the midpoint with a bound")
         else:
